@@ -995,9 +995,13 @@ struct Step {
     mode: u8,
     /// Some(s): set_subset(s) is called as well, before (true) or after (false) set_mode
     subset: Option<(Option<u32>, bool)>,
+    /// what happens to the result: 0 collect_results into the session's list; 1 nothing (analysed, never collected);
+    /// 2 swap_result into fresh parts, put together with from_components; 3 into_morpheme_list (a new tokenizer follows)
+    how: u8,
 }
+const HOW_NAMES: [&str; 4] = ["collect_results", "not collected", "swap_result + from_components", "into_morpheme_list"];
 fn step_json(s: &Step) -> Value {
-    json!({"text": s.text.json(), "mode": MODE_NAMES[s.mode as usize],
+    json!({"text": s.text.json(), "mode": MODE_NAMES[s.mode as usize], "how": s.how,
            "subset": match &s.subset { None => Value::Null, Some((b, first)) => json!({"bits": subset_json(*b), "before_set_mode": first}) }})
 }
 fn step_from(v: &Value) -> Step {
@@ -1005,6 +1009,7 @@ fn step_from(v: &Value) -> Step {
         text: Text::from_json(&v["text"]),
         mode: mode_from(&v["mode"]),
         subset: if v["subset"].is_null() { None } else { Some((subset_from(&v["subset"]["bits"]), v["subset"]["before_set_mode"].as_bool().unwrap_or(true))) },
+        how: v["how"].as_u64().unwrap_or(0) as u8,
     }
 }
 
@@ -1016,6 +1021,7 @@ fn step_from(v: &Value) -> Step {
 fn run_session(sink: &mut Sink, dict: &JapaneseDictionary, init_mode: u8, steps: &[Step], st: &Stack, ds: &DictSpec, verbose_last: bool) {
     let mut tok = StatefulTokenizer::new(dict, mode_of(init_mode));
     let mut list = MorphemeList::empty(dict);
+    let mut other: Option<MorphemeList<&JapaneseDictionary>> = None;
     let mut collected_nonempty = 0usize;
     let (sj, dj) = conf_json(st, ds);
     for k in 0..steps.len() {
@@ -1028,6 +1034,11 @@ fn run_session(sink: &mut Sink, dict: &JapaneseDictionary, init_mode: u8, steps:
         if step.subset.is_some() {
             sink.tag("session_step_switches_field_subset");
         }
+        sink.tag(&format!("session_step_result={}", HOW_NAMES[step.how as usize % 4]));
+        if k > 0 && steps[k - 1].how == 1 && step.how != 1 {
+            sink.tag("session_step_after_an_uncollected_analysis");
+        }
+        other = None;
         let r = catch(|| {
             match &step.subset {
                 None => {
@@ -1047,8 +1058,27 @@ fn run_session(sink: &mut Sink, dict: &JapaneseDictionary, init_mode: u8, steps:
                 return None;
             }
             let (cur, m2o) = dump_input(&tok);
-            if list.collect_results(&mut tok).is_err() {
-                return None;
+            match step.how {
+                0 => {
+                    if list.collect_results(&mut tok).is_err() {
+                        return None;
+                    }
+                }
+                1 => {}
+                2 => {
+                    let mut input = Default::default();
+                    let mut path = vec![];
+                    let mut sub = Default::default();
+                    tok.swap_result(&mut input, &mut path, &mut sub);
+                    other = Some(MorphemeList::from_components(dict, input, path, sub));
+                }
+                _ => {
+                    let done = std::mem::replace(&mut tok, StatefulTokenizer::new(dict, mode_of(step.mode)));
+                    match done.into_morpheme_list() {
+                        Ok(l) => other = Some(l),
+                        Err(_) => return None,
+                    }
+                }
             }
             Some((cur, m2o))
         });
@@ -1057,8 +1087,20 @@ fn run_session(sink: &mut Sink, dict: &JapaneseDictionary, init_mode: u8, steps:
                 if verbose {
                     println!("analysis panicked: {}", p);
                 }
-                sink.tag("analysis_panicked(not C01/C08)");
-                sink.case_rust_only(d, false);
+                // a panic of analysis as such is C03's subject -- unless a FRESH tokenizer analyses the same text: then the
+                // reused one lost this text because of what was done with it before
+                let fresh = catch(|| {
+                    let mut t2 = StatefulTokenizer::new(dict, mode_of(step.mode));
+                    t2.reset().push_str(&text);
+                    t2.do_tokenize().is_ok()
+                });
+                let id = sink.case_rust_only(d, false);
+                if fresh == Ok(true) && k > 0 {
+                    let p: String = p.chars().take(160).collect();
+                    sink.fail(id, &format!("a fresh tokenizer analyses this text, the reused one panicked ({}): no morphemes for it", p), "");
+                } else {
+                    sink.tag("analysis_panicked(not C01/C08)");
+                }
                 return; // the state of tokenizer and list after a panic is nobody's contract
             }
             Ok(None) => {
@@ -1068,8 +1110,12 @@ fn run_session(sink: &mut Sink, dict: &JapaneseDictionary, init_mode: u8, steps:
                 sink.tag("rejected_by_tokenizer");
                 sink.case_rust_only(d, false);
             }
+            Ok(Some(_)) if step.how == 1 => {
+                // analysed and left alone: nothing is reported, nothing to check (the next collected step is the test)
+                sink.case_rust_only(d, false);
+            }
             Ok(Some((cur, m2o))) => {
-                let (morphs, accessor_panic) = read_morphs(&list);
+                let (morphs, accessor_panic) = read_morphs(other.as_ref().unwrap_or(&list));
                 if cur.is_empty() {
                     sink.tag(&format!("session_empty_after_{}_nonempty", usize::min(collected_nonempty, 3)));
                 } else {
@@ -1128,6 +1174,9 @@ fn gen_limit_text(rng: &mut Rng) -> Text {
     if rng.chance(1, 2) {
         return gen_plain_limit_text(rng);
     }
+    if rng.chance(1, 3) {
+        return gen_char_limit_text(rng);
+    }
     // (character, bytes before, bytes after NFKC)
     let (c, before, after) = *rng.pick(&[("㍿", 3usize, 12usize), ("㌀", 3, 12), ("\u{FDFA}", 3, 33), ("㈱", 3, 5)]);
     let fits_out = 65535 / after;
@@ -1148,6 +1197,40 @@ fn gen_limit_text(rng: &mut Rng) -> Text {
     parts.push((c.to_string(), k));
     if rng.chance(1, 2) {
         parts.push(((*rng.pick(&["京都に行く", "ーー", "１２", "。"])).to_string(), 1 + rng.below(3) as usize));
+    }
+    Text(parts)
+}
+
+/// texts within the input limit whose NORMALISED form comes close to / crosses 65535 bytes through a mixture of
+/// one character -> one (multi-byte) character rewrites (half-width katakana, upper-case Greek / Cyrillic / Latin-1,
+/// full-width letters: InputEditor::replace_char*) and expanding ones (㍿, ㌀, ㈱), interleaved in groups, optionally with
+/// an untouched character in every group: the size of the rewritten text must be accounted in bytes whatever kind of
+/// replacement produced them
+fn gen_char_limit_text(rng: &mut Rng) -> Text {
+    // (text, bytes before, bytes after)
+    let (c, cb, ca) = *rng.pick(&[("ｱ", 3usize, 3usize), ("Ω", 2, 2), ("Я", 2, 2), ("É", 2, 2), ("Ａ", 3, 1), ("ｶ", 3, 3), ("Ⱥ", 2, 3)]);
+    let (e, eb, ea) = *rng.pick(&[("㍿", 3usize, 12usize), ("㌀", 3, 12), ("㈱", 3, 5), ("\u{FDFA}", 3, 33)]);
+    let (p, pb) = *rng.pick(&[("", 0usize), ("漢", 3), ("に", 3), ("x", 1)]);
+    let a = 1 + rng.below(3) as usize;
+    let group = format!("{}{}{}", c.repeat(a), e, p);
+    let (gin, gout) = (a * cb + eb + pb, a * ca + ea + pb);
+    let fits_in = 49149 / gin;
+    let above = 65535 / gout + 1;
+    let k = match rng.below(5) {
+        0 => above - 1,
+        1 => above,
+        2 => above + rng.below(60) as usize,
+        3 => fits_in,
+        _ => above + rng.below((fits_in.saturating_sub(above) + 1) as u64) as usize,
+    };
+    let k = usize::min(k, fits_in);
+    let mut parts = vec![];
+    if rng.chance(1, 3) {
+        parts.push(((*rng.pick(&["東京都に行った", "京都"])).to_string(), 1));
+    }
+    parts.push((group, k));
+    if rng.chance(1, 2) {
+        parts.push(((*rng.pick(&["京都に行く", "東京都", "。"])).to_string(), 1));
     }
     Text(parts)
 }
@@ -1287,9 +1370,29 @@ pub fn pipeline(which: Prop, sink: &mut Sink, args: &Args, rng: &mut Rng) {
             (vec!["東京都に行った", "京都にいく", "", "東京に行く", " ", "", "京都"], 0),
             (vec!["ＡＢ東京都（と）にすごーーい", "", "東京都", ""], 1),
         ] {
-            let steps: Vec<Step> = texts.iter().map(|s| Step { text: Text::plain(s), mode, subset: None }).collect();
+            let steps: Vec<Step> = texts.iter().map(|s| Step { text: Text::plain(s), mode, subset: None, how: 0 }).collect();
             run_session(sink, &dict, mode, &steps, &full, &ds0, false);
             sink.tag("directed");
+        }
+        // analyses that are never collected (one, two in a row, of a longer / shorter / rewritten / empty text), followed by
+        // an analysis whose result is taken with collect_results, swap_result + from_components or into_morpheme_list
+        for how_last in [0u8, 2, 3] {
+            for (texts, hows) in [
+                (vec!["東京都に行く", "東京"], vec![1u8, how_last]),
+                (vec!["東京", "東京都に行く"], vec![1, how_last]),
+                (vec!["京都", "ＡＢ東京都（と）にすごーーい", "", "東京都"], vec![0, 1, 1, how_last]),
+                (vec!["東京都に行った", "京都", "東京都", "abc"], vec![1, how_last, 1, how_last]),
+                (vec!["abc", "", "東京都"], vec![how_last, 1, how_last]),
+                (vec!["abc", "東京都に行く"], vec![1, how_last]),
+                (vec!["ab", "ＡＢ東京都（と）にすごーーい"], vec![1, how_last]),
+                (vec!["x京", "", "東京都に行く"], vec![1, 1, how_last]),
+            ] {
+                for mode in [2u8, 0] {
+                    let steps: Vec<Step> = texts.iter().zip(hows.iter()).map(|(s, h)| Step { text: Text::plain(s), mode, subset: None, how: *h }).collect();
+                    run_session(sink, &dict, mode, &steps, &full, &ds0, false);
+                    sink.tag("directed");
+                }
+            }
         }
         // special first characters (byte order mark, zero-width / no-break / ideographic space, combining mark, NUL, 4-byte
         // character): alone, in front of ordinary text, in front of text the plugins rewrite -- with the full plugin stack,
@@ -1311,7 +1414,7 @@ pub fn pipeline(which: Prop, sink: &mut Sink, args: &Args, rng: &mut Rng) {
             run_split(sink, &dict, &Text::plain(&texts[1]), None, &full, &ds0, false);
             let steps: Vec<Step> = ["京都", texts[1].as_str(), "", texts[2].as_str(), texts[0].as_str(), "東京都"]
                 .iter()
-                .map(|s| Step { text: Text::plain(s), mode: 2, subset: None })
+                .map(|s| Step { text: Text::plain(s), mode: 2, subset: None, how: 0 })
                 .collect();
             run_session(sink, &dict, 2, &steps, &full, &ds0, false);
             sink.tag("directed");
@@ -1354,6 +1457,24 @@ pub fn pipeline(which: Prop, sink: &mut Sink, args: &Args, rng: &mut Rng) {
                 }
             }
         }
+        // every run, both properties: inputs within the input limit whose normalised form is just below / just above / far
+        // above 65535 bytes, the growth coming from expanding rewrites interleaved with one character -> one multi-byte
+        // character rewrites (must be rejected, or accepted and reported with offsets that describe the text)
+        for (g, k) in [("ｱ㍿漢", 3640usize), ("ｱ㍿漢", 3641), ("ｱ㍿漢", 3900), ("Ω㍿", 4800), ("Я㍿京", 3900), ("ｱｱｱ㍿", 3500), ("É㌀に", 4000), ("ｶﾞ㍿", 3700)] {
+            let t = Text(vec![(g.to_string(), k), ("京都".to_string(), 1)]);
+            run_one(sink, &dict, &t, 2, None, &full, &ds0, false);
+            sink.tag("directed");
+            sink.tag("around_the_length_limits");
+            sink.tag("normalised_size_through_char_replacements");
+        }
+        {
+            let steps: Vec<Step> = vec![Text::plain("東京都"), Text(vec![("ｱ㍿漢".to_string(), 3900)]), Text::plain("京都に行った")]
+                .into_iter()
+                .map(|text| Step { text, mode: 0, subset: None, how: 0 })
+                .collect();
+            run_session(sink, &dict, 0, &steps, &full, &ds0, false);
+            sink.tag("around_the_length_limits");
+        }
         // the two length limits
         if which == Prop::C01 {
             // with the full plugin stack and with no input-text plugin at all
@@ -1384,7 +1505,7 @@ pub fn pipeline(which: Prop, sink: &mut Sink, args: &Args, rng: &mut Rng) {
                 let mode = rng.below(3) as u8;
                 let steps: Vec<Step> = vec![Text::plain("東京都"), gen_limit_text(rng), Text::plain("京都に行った"), gen_limit_text(rng), Text::plain("ＡＢＣ")]
                     .into_iter()
-                    .map(|text| Step { text, mode, subset: None })
+                    .map(|text| Step { text, mode, subset: None, how: 0 })
                     .collect();
                 run_session(sink, &dict, mode, &steps, &full, &ds0, false);
                 sink.tag("around_the_length_limits");
@@ -1462,6 +1583,12 @@ pub fn pipeline(which: Prop, sink: &mut Sink, args: &Args, rng: &mut Rng) {
                     },
                     mode: if switch { rng.below(3) as u8 } else { m0 },
                     subset: if subsets && rng.chance(1, 2) { Some((gen_subset(rng), rng.chance(1, 2))) } else { None },
+                    how: match rng.below(10) {
+                        0..=5 => 0,
+                        6 | 7 => 1,
+                        8 => 2,
+                        _ => 3,
+                    },
                 })
                 .collect();
             let init = if rng.chance(1, 3) { rng.below(3) as u8 } else { steps[0].mode };
